@@ -455,6 +455,29 @@ Definition all_offsets (u : unitd) : list N :=
 Definition convert_all (units : list unitd) : res (list (N * N)) :=
   convert_units (flat_map (fun u => root_off u :: all_offsets u) units) units [].
 
+(* The error-tolerant loop documented on ConvertUnit (read_entry / add_entry / convert_attribute_value per
+   attribute, as crates/examples `convert` does): an attribute whose conversion fails is skipped instead of
+   aborting the conversion, so every reserved DIE is emitted whatever its reference sites hold. *)
+Definition strip_raw (r : rawent) : rawent :=
+  {| r_ent := {| e_off := e_off (r_ent r); e_tag := e_tag (r_ent r); e_decl := e_decl (r_ent r);
+                 e_sites := [] |};
+     r_depth := r_depth r; r_kids := r_kids r |}.
+
+Fixpoint convert_units_tol (ids : list N) (units : list unitd) (out : list (N * N)) : res (list (N * N)) :=
+  match units with
+  | [] => Ok out
+  | u :: us =>
+      let ps0 := if is_nil (u_kids u) then [] else [(0%Z, root_off u)] in
+      let* st := cu_entries u ids (ps0, out) (map strip_raw (flatten_list 1 (u_kids u))) in
+      convert_units_tol ids us (snd st)
+  end.
+
+Definition convert_filtered_tol rf (dbg : bool) (req : N -> bool) (units : list unitd)
+  : res (list (N * N)) :=
+  let* offs := reserved rf dbg req units in
+  let* sl := slices dbg units offs in
+  convert_units_tol (reserve_all units sl) units [].
+
 (* ------------------------------------------------------------------------------------------ *)
 (* The graph denoted by a FilterDependencies value (used by the statements in Properties/C19.v):
    nodes = keys on which add_entry was called, edges = the stored vectors, roots = `required`.   *)
